@@ -17,6 +17,10 @@ def parseVal (s : String) : Option PanicVal :=
   | ["opsys", m] => some (.opSyscall (asciiStr "write: " ++ bytesOfHex m))   -- os.SyscallError.Error() = syscall + ": " + text
   | ["opplain", m] => some (.opPlain (bytesOfHex m))
   | ["wrapop", m] => some (.wrappedOp (asciiStr "write: " ++ bytesOfHex m))
+  -- an OpError whose error chain holds the syscall error deeper down (nested OpError, %w wrapping): errors.As finds it,
+  -- so these are the model's `opSyscall` class
+  | ["opnested", m] => some (.opSyscall (asciiStr "write: " ++ bytesOfHex m))
+  | ["opwrapsys", m] => some (.opSyscall (asciiStr "write: " ++ bytesOfHex m))
   | _ => none
 
 def parseProgress : String → Option Progress
@@ -76,7 +80,7 @@ def handleT (kind nopsS pos : String) : String :=
   let e : TxnEnd := if pos.startsWith "p" then .panics else if pos.startsWith "e" then .returnsError else .completes (nops > 0)
   let o : Option TxnObs :=
     match kind with
-    | "updates" => some (managed true e)
+    | "updates" | "updates-t1" | "updates-t2" | "updates-t3" => some (managed true e)
     | "view" => some (managed false e)
     | "handle" => some (singleOp 0)
     | "update" => some (singleOp 2)
@@ -88,8 +92,8 @@ def handleT (kind nopsS pos : String) : String :=
     let s : TxnObs := match e with
       | .panics => { out := "repanic:same", routesSame := true, lockFree := true }
       | .returnsError => { out := "error", routesSame := true, lockFree := true }
-      | .completes eff => { out := "returned", routesSame := !(kind == "updates" && eff), lockFree := true }
-    "M=" ++ showTxn o ++ "\tS=" ++ showTxn s ++ "\tT=txn-" ++ kind ++ "," ++ "txn-" ++ (pos.take 1).toString
+      | .completes eff => { out := "returned", routesSame := !(kind.startsWith "updates" && eff), lockFree := true }
+    "M=" ++ showTxn o ++ "\tS=" ++ showTxn s ++ "\tT=txn-" ++ kind ++ "," ++ "txn-" ++ (pos.take 1).toString ++ (if kind.startsWith "updates-t" then ",txn-truncate-first" else "")
 
 def handle (fields : List String) : String :=
   match fields with
